@@ -12,7 +12,7 @@
 #include "vf.h"
 #include "galois/gstl.h"
 #include "galois/graphs/GraphHelpers.h"
-#include "../../repo/libgalois/src/GraphHelpers.cpp"
+#include "../src/GraphHelpers.cpp"
 
 extern "C" __attribute__((noinline)) void k_block_range_u64(uint64_t b, uint64_t e, unsigned id, unsigned num, uint64_t* A, uint64_t* B) {
   auto r = galois::block_range(b, e, id, num);
